@@ -10,6 +10,10 @@ NoKF        == {}
 PinnedKF    == {"KF1"}
 N2          == {1, 2}
 N3          == {1, 2, 3}
+N4          == {1, 2, 3, 4}
+\* simulation: print the history of every behaviour that reaches the depth bound
+SimD        == 25
+SimPrint    == (TLCGet("level") = SimD) => PrintT(<<"SIM", G.dir, G.rem, hist>>)
 \* the action alphabet of the configuration, for the spec -> code replay
 ASSUME PrintT(<<"ALPHABET", Calls>>)
 ==============================================================================
